@@ -27,11 +27,19 @@ def run(ck):
     progs = [p for p in gen.gen_use(q, ck.seed) if ":fail" in p["id"]]
     progs += [p for p in gen.gen_hostile(True, ck.seed)][: (300 if q else 3000)]
     machine.run_family(ck, "error-positions", progs)
+    # (e) load-time link errors: the root cause and every use() call site on the way out, for all script sets of the Loader spec
+    scripts, mc = ('{"a","b","c"}', 2)
+    cfg = ("CONSTANTS Scripts = %s\nMissing = \"zz\"\nMaxCalls = %d\nSPECIFICATION Spec\nINVARIANTS ChainShape Emit\n"
+           "CHECK_DEADLOCK FALSE\n") % (scripts, mc)
+    res, rows = tlc_emit(ck, "Loader", cfg, "Loader(%s,calls<=%d)" % (scripts, mc), timeout=1700, xmx="24g")
+    replay(ck, "replay-loader", rows, "link-error-positions")
     ck.cov["exhaustive"] = False
     ck.cov["rule"] = ("(a,d) every state of the TLC-explored scanning machine (all texts <= MaxSyms symbols over "
                       "{a,\\n,2-byte,3-byte rune} x every offset -1..len+1) and every behaviour of the ErrChain "
                       "machine is one call sequence into the real code; (b) every tree of the Syntax spec in several layouts: each position "
                       "field must be the offset of the token the spec designates, with consistent line/column; (c) programs with a "
                       "run-time fault at every position of a use() call tree and hostile atoms: every chain entry names the right "
-                      "script and lies inside the statement at fault. distinct = distinct texts / op sequences / trees / programs")
+                      "script and lies inside the statement at fault; (e) every script set x visit order of the Loader spec (call i of a script sits "
+                      "at line i, column 2i-1): a rejected root's chain is the root cause followed by exactly the call sites on the "
+                      "path, each with its own script, line and column. distinct = distinct texts / op sequences / trees / programs")
     ck.assumptions += ["TLC/SANY 1.8.0 and CommunityModules Json are trusted", "bounds: see rule"]
